@@ -43,7 +43,7 @@ HasRx(sc) ==
 Init ==
   /\ pick \in Picks
   /\ scen = ScenOf(pick)
-  /\ rxMode \in (IF HasRx(scen) THEN RxModes ELSE {"orig"})
+  /\ rxMode \in (IF HasRx(scen) THEN {RxMode(m) : m \in RxModes} ELSE {RxMode("orig")})
   /\ st = InitState(scen.engine)
   /\ p = 1
   /\ i = 1
